@@ -5,6 +5,7 @@ package main
 
 import (
 	"fmt"
+	"time"
 	"go/ast"
 	"go/constant"
 	"go/token"
@@ -46,6 +47,8 @@ func (atNoPos) Pos() token.Pos { return token.NoPos }
 //go:linkname types_checker_infer go/types.(*Checker).infer
 func types_checker_infer(check *types.Checker, posn nPositioner, tparams []*types.TypeParam, targs []types.Type, params *types.Tuple, args []*nOperand, reverse bool, err *nError_) (inferred []types.Type)
 
+const inferWatchdog = 60 * time.Second
+
 func init() {
 	intrinsics["github.com/goplus/gogen.checker_infer"] = func(e *Exec, _ *frame, fn *ssa.Function, a []Value) Value {
 		check := e.toNative(a[0], reflect.TypeOf((*types.Checker)(nil))).Interface().(*types.Checker)
@@ -72,24 +75,45 @@ func init() {
 		reverse := e.concBool(a[6])
 		nerr := &nError_{check: check, code: 138}
 		var res []types.Type
-		func() {
+		// The unifier runs natively and cannot be interrupted. A watchdog turns a call that does not
+		// return into a fault of this path (non-termination is a C17 violation; natively the replay
+		// child is killed by its timeout, which is the reproduction) and stops the exploration: the
+		// runaway goroutine keeps allocating for as long as this process lives.
+		type inferOut struct {
+			res []types.Type
+			pv  interface{}
+		}
+		ch := make(chan inferOut, 1)
+		go func() {
+			var o inferOut
 			defer func() {
-				if r := recover(); r != nil {
-					if _, ok := r.(pathAbort); ok {
-						panic(r)
-					}
-					if _, ok := r.(*goPanic); ok {
-						panic(r)
-					}
-					if re, isRT := r.(interface{ RuntimeError() }); isRT {
-						_ = re
-						panic(&goPanic{val: Iface{T: e.w.errorT, V: "RT:" + fmt.Sprint(r)}, runtime: true, msg: "runtime error inside go/types infer: " + fmt.Sprint(r), stack: e.stackString()})
-					}
-					e.userPanic(Iface{T: types.Typ[types.String], V: fmt.Sprint(r)}, "go/types infer panic: "+fmt.Sprint(r))
-				}
+				o.pv = recover()
+				ch <- o
 			}()
-			res = types_checker_infer(check, atNoPos{}, tparams, targs, params, args, reverse, nerr)
+			o.res = types_checker_infer(check, atNoPos{}, tparams, targs, params, args, reverse, nerr)
 		}()
+		var out inferOut
+		select {
+		case out = <-ch:
+		case <-time.After(inferWatchdog):
+			if e.queue != nil {
+				e.queue.stopNow()
+			}
+			e.fault("resource: go/types type inference did not return within %v (non-terminating unification, unbounded memory)", inferWatchdog)
+		}
+		res = out.res
+		if r := out.pv; r != nil {
+			if _, ok := r.(pathAbort); ok {
+				panic(r)
+			}
+			if _, ok := r.(*goPanic); ok {
+				panic(r)
+			}
+			if _, isRT := r.(interface{ RuntimeError() }); isRT {
+				panic(&goPanic{val: Iface{T: e.w.errorT, V: "RT:" + fmt.Sprint(r)}, runtime: true, msg: "runtime error inside go/types infer: " + fmt.Sprint(r), stack: e.stackString()})
+			}
+			e.userPanic(Iface{T: types.Typ[types.String], V: fmt.Sprint(r)}, "go/types infer panic: "+fmt.Sprint(r))
+		}
 		e.res.noteNative("go/types.(*Checker).infer")
 		// write errors back into the engine's error_ struct
 		if ep, ok := a[7].(*Value); ok && ep != nil {
